@@ -191,9 +191,8 @@ Fixpoint lookup_reg (c : string) (reg : registry) : option (list string * stree)
   end.
 
 (* ------------------------------------------------------------------ settled (validated) settings *)
-(* an object remembers the field list of ITS OWN class (`gov`): that is what `_check_developer_mode`
-   iterates over (cls.model_fields) — for dict input it is the declared class, for object input the
-   class of the object that was passed in *)
+(* an object remembers the field list of ITS OWN class (`gov`; for dict input the declared class, for object input the
+   class of the object that was passed in): model_dump() uses it; before /repo c15ad84d the lock walked it too *)
 Inductive sval :=
 | SLeaf (v : jv)
 | SObj (gov : list stree) (fields : list (string * sval)).
@@ -287,24 +286,26 @@ Definition validate_leaf (l : leaf) (kvs : list (string * jv)) : option jv :=
   | Some v => option_map (add_required (lreq l)) (coerce (lty l) (pre v))
   end.
 
-(* ------------------------------------------------------------------ the developer-mode lock, as coded (settings.py:196-204) *)
-Fixpoint check_dev (s : sval) : bool :=
-  match s with
-  | SLeaf _ => true
-  | SObj gov fields =>
-      forallb (fun kv => match kv with
-                         | (k, v) =>
-                             match v with
-                             | SObj _ _ => check_dev v                     (* a nested settings object is entered ... *)
-                             | SLeaf x =>                                  (* ... anything else is compared with the class default *)
-                                 match find_tree k gov with
-                                 | Some (Leaf l) => negb (ldev l && negb (jv_eqb x (ldefault l)))
-                                 | Some (Node _ dev _ _ _ _) => negb dev   (* None != PydanticUndefined *)
-                                 | None => true
-                                 end
-                             end
-                         end) fields
+(* ------------------------------------------------------------------ the developer-mode lock, as coded (settings.py:196-214,
+   since /repo c15ad84d): the walk follows the DECLARED classes — `fields` of the root class, and for a field that holds a
+   settings object the model_fields of the field's annotated class — and reads the values with getattr; so an object of a
+   subclass is compared with the defaults of the class its field declares, not with its own. *)
+Fixpoint check_dev_t (t : stree) (v : sval) {struct t} : bool :=
+  match t with
+  | Leaf l =>
+      match v with
+      | SLeaf x => negb (ldev l && negb (jv_eqb x (ldefault l)))
+      | SObj _ _ => true                    (* not reachable: no leaf type accepts a settings object *)
+      end
+  | Node _ dev _ _ _ ch =>
+      match v with
+      | SObj _ f =>                          (* a nested settings object is entered with the declared fields ... *)
+          forallb (fun c => match getf (tname c) f with Some v' => check_dev_t c v' | None => true end) ch
+      | SLeaf _ => negb dev                  (* ... anything else is compared: None != PydanticUndefined *)
+      end
   end.
+Definition check_dev (ch : list stree) (f : list (string * sval)) : bool :=
+  forallb (fun c => match getf (tname c) f with Some v' => check_dev_t c v' | None => true end) ch.
 
 (* ------------------------------------------------------------------ cross-field validators, as coded *)
 Definition is_null (v : jv) : bool := match v with JNull => true | _ => false end.
@@ -313,7 +314,7 @@ Definition starts_nlopt (s : string) : bool := String.eqb (substring 0 5 s) "nlo
 Definition v_devmode (gov : list stree) (f : list (string * sval)) : option reason :=
   match get_leaf "developer_mode" f with
   | Some (JBool true) => None
-  | Some (JBool false) => if check_dev (SObj gov f) then None else Some RDeveloper
+  | Some (JBool false) => if check_dev gov f then None else Some RDeveloper
   | _ => Some RCrash
   end.
 
